@@ -503,6 +503,43 @@ theorem applyOps_inv (cw ch : Nat) (hcw : U32 cw) (hch : U32 ch) (ops : List FcO
         (applyOp_inRange cw ch fc fc' op hcw hch hr (ho op (List.mem_cons_self ..)) h)
         (fun o ho' => ho o (List.mem_cons_of_mem _ ho'))
 
+/-- `set_fctl` keeps the frame inside the canvas and inside the Rust types -/
+theorem setFctl_inv (cw ch : Nat) (wfc c : FrameControl) (hi : FcInv cw ch c) (hr : FcInRange c)
+    (hs : U32 wfc.seq) : FcInv cw ch (setFctl wfc c) ∧ FcInRange (setFctl wfc c) := by
+  obtain ⟨r1, r2, r3, r4, r5, r6, r7, r8, r9⟩ := hr
+  exact ⟨hi, hs, r2, r3, r4, r5, r6, r7, r8, r9⟩
+
+/-- an accepted setter call changes exactly the fields it names -/
+theorem applyOp_fields (cw ch : Nat) (c c' : FrameControl) (op : FcOp) (h : applyOp cw ch c op = .ok c') :
+    c' = match op with
+      | .dimension w h' => { c with width := w, height := h' }
+      | .position x y => { c with x := x, y := y }
+      | .resetDimension => { c with width := cw - c.x, height := ch - c.y }
+      | .resetPosition => { c with x := 0, y := 0 }
+      | .delay n d => { c with delayNum := n, delayDen := d }
+      | .blend b => { c with blend := b }
+      | .dispose o => { c with dispose := o } := by
+  cases op with
+  | dimension w h' =>
+    simp only [applyOp] at h
+    split at h
+    · cases h
+    · split at h
+      · cases h
+      · split at h
+        · cases h
+        · cases h; rfl
+  | position x y =>
+    simp only [applyOp] at h
+    split at h
+    · cases h
+    · cases h; rfl
+  | resetDimension => simp only [applyOp] at h; cases h; rfl
+  | resetPosition => simp only [applyOp] at h; cases h; rfl
+  | delay n d => simp only [applyOp] at h; cases h; rfl
+  | blend b => simp only [applyOp] at h; cases h; rfl
+  | dispose o => simp only [applyOp] at h; cases h; rfl
+
 /-- the sequence number after an emission is again a `u32` and the other fields are untouched -/
 theorem emitFctl_spec (fc : FrameControl) (n : Nat) :
     (emitFctl fc n).1 = (Framing.fcTL, encodeFctl fc) ∧
